@@ -120,7 +120,8 @@ class CaseOracle:
             if k in ("construct", "fail") and e["c"] in self.ctors:
                 c = e["c"]
                 lc = self.ctors[c]["lc"]
-                per_ctor[c] = per_ctor.get(c, 0) + 1
+                # (a generic constructor builds one value per concrete specialisation)
+                per_ctor[(c, e.get("t"))] = per_ctor.get((c, e.get("t")), 0) + 1
                 if lc == "singleton":
                     out.append(V("C03", "singleton_built_while_serving", {"event": e, "req": req_brief(req)}))
                 if k == "construct":
@@ -143,7 +144,7 @@ class CaseOracle:
                 c = self.ctors.get(origin)
                 if c and c["lc"] == "transient":
                     uses[root] = uses.get(root, 0) + 1
-        for c, n in per_ctor.items():
+        for (c, _t), n in per_ctor.items():
             if self.ctors[c]["lc"] == "request" and n > 1:
                 out.append(V("C03", "request_scoped_built_twice", {"ctor": c, "n": n, "req": req_brief(req), "events": evs}))
         for root, n in uses.items():
